@@ -50,6 +50,7 @@ structure M where
   s : State := init (Mmtk.Generated.Stages.cfg 1)
   exp : List (Nat × List Exp) := []           -- per worker: rest of the current group
   soft : List Nat := []                        -- ids of packets inside a logging-skew window
+  softOpen : List Nat := []                    -- buckets whose `open` store may not have happened yet (logged before)
   lastPush : List (Nat × Nat) := []            -- per tid: stage of the last BqPush / kind of last producer op
   credit : List (Nat × Nat × Nat) := []        -- per worker: (stage, packets a batch may still move)
   pendReq : Option (Nat × Nat) := none         -- MonMakeRequest seen (tid, goal), waiting for MonRequested
@@ -127,7 +128,7 @@ def softAll (m : M) (l : List Pkt) : Bool := l.all fun p => m.soft.contains p.id
 
 /-- `looksEmpty` up to logging skew -/
 def mayLookEmpty (m : M) (w : Nat) : Cont → Bool
-  | .bucket b => !((m.s.bkt b).enabled && (m.s.bkt b).isOpen) || softAll m (m.s.bkt b).q
+  | .bucket b => !((m.s.bkt b).enabled && (m.s.bkt b).isOpen) || m.softOpen.contains b || softAll m (m.s.bkt b).q
   | .buf x => softAll m (m.s.buf x)
   | .desig => softAll m (m.s.desig w)
 
@@ -329,11 +330,11 @@ def onEvent (m : M) (tid kind a b : Nat) : M :=
     { m with soft := before :: m.soft, maxQ := max m.maxQ ((m.s.bkt st).q.length) }
   | 14 => setLastPush m tid b
   | 15 => match wk with
-    | some w => setLastPush (act { m with nOpen := m.nOpen + 1 } (.openFirst w a) s!"openFirst {w} bucket {a}") tid 1001
+    | some w => setLastPush (act { m with nOpen := m.nOpen + 1, softOpen := a :: m.softOpen } (.openFirst w a) s!"openFirst {w} bucket {a}") tid 1001
     | none => fail m "sched:shape" "BucketOpen outside a worker"
   | 16 => fail m "sched:shape" s!"BucketClose({a}) outside on_gc_finished"
   | 17 => match wk with
-    | some w => act m (.setEnabled w a (b == 1)) s!"setEnabled {w} {a} {b}"
+    | some w => act { m with softOpen := if b == 1 then a :: m.softOpen else m.softOpen } (.setEnabled w a (b == 1)) s!"setEnabled {w} {a} {b}"
     | none => act m (.initSetEnabled a (b == 1)) s!"initSetEnabled {a} {b}"
   | 18 => match wk with
     | some w => let before := m.s.nextId
@@ -445,6 +446,7 @@ def onEvent (m : M) (tid kind a b : Nat) : M :=
       else if !drained || !others then fail m "gc:weak-before-closure" "process_weak_refs while an earlier stage is not drained"
       else m
     | none => fail m "sched:shape" "process_weak_refs outside a worker"
+  | 204 => { m with softOpen := m.softOpen.erase a }   -- OpenSolid (pseudo): the opener has moved on, the store is done
   | 202 => -- Solid (pseudo): the packet with this key has left its producer-side skew window
     let k := keyOf a b
     match (allPkts m).find? (fun p => p.tag == k && m.soft.contains p.id) with
